@@ -140,6 +140,8 @@ Definition run_kernel (fn : string) (c : json) : option json :=
     Some (of_list of_nat (draw_key [] n_ids t j i))
   else if String.eqb fn "state_space" then run_state_space c
   else if String.eqb fn "template" then run_template c
+  else if String.eqb fn "validate_model" then run_validate_model c
+  else if String.eqb fn "creation_checks" then run_creation_checks c
   else if String.eqb fn "layout_map" then run_layout_map c
   else if String.eqb fn "indexers_and_segments" then
     do mask <- jfield_of (jarr jbool) "mask" c ;; do n <- jfield_of jnat "n_sparse_states" c ;;
